@@ -141,6 +141,14 @@ func (e *ie) eval(env map[string]iv) (iv, bool) {
 				r = sym(a.maxAbs())
 			}
 		case "&", "|", "^":
+			if e.op == "&" && b.lo.Sign() >= 0 && b.lo.Cmp(b.hi) == 0 {
+				r = iv{big.NewInt(0), b.hi} // masking with a non-negative constant
+				break
+			}
+			if e.op == "&" && a.lo.Sign() >= 0 && a.lo.Cmp(a.hi) == 0 {
+				r = iv{big.NewInt(0), a.hi}
+				break
+			}
 			n := a.maxAbs().BitLen()
 			if m := b.maxAbs().BitLen(); m > n {
 				n = m
@@ -159,6 +167,64 @@ func (e *ie) eval(env map[string]iv) (iv, bool) {
 		}
 	}
 	return r, r.within()
+}
+
+// konst evaluates e exactly if it contains no variable.
+func (e *ie) konst() (*big.Int, bool) {
+	switch e.op {
+	case "k":
+		return big.NewInt(e.k), true
+	case "v", "bound", "join":
+		return nil, false
+	case "neg", "inv":
+		a, ok := e.l.konst()
+		if !ok {
+			return nil, false
+		}
+		if e.op == "neg" {
+			return new(big.Int).Neg(a), true
+		}
+		return new(big.Int).Not(a), true
+	}
+	a, ok := e.l.konst()
+	if !ok {
+		return nil, false
+	}
+	b, ok := e.r.konst()
+	if !ok {
+		return nil, false
+	}
+	switch e.op {
+	case "+":
+		return new(big.Int).Add(a, b), true
+	case "-":
+		return new(big.Int).Sub(a, b), true
+	case "*":
+		return new(big.Int).Mul(a, b), true
+	case "/", "%":
+		if b.Sign() == 0 {
+			return nil, false
+		}
+		if e.op == "/" {
+			return new(big.Int).Quo(a, b), true
+		}
+		return new(big.Int).Rem(a, b), true
+	case "&":
+		return new(big.Int).And(a, b), true
+	case "|":
+		return new(big.Int).Or(a, b), true
+	case "^":
+		return new(big.Int).Xor(a, b), true
+	case "<<", ">>":
+		if b.Sign() < 0 || b.Cmp(big.NewInt(3)) > 0 {
+			return nil, false
+		}
+		if e.op == "<<" {
+			return new(big.Int).Lsh(a, uint(b.Int64())), true
+		}
+		return new(big.Int).Rsh(a, uint(b.Int64())), true
+	}
+	return nil, false
 }
 
 // eff is one assignment to an integer variable made by a statement.
@@ -683,7 +749,7 @@ func frameC(thorough bool) *frame {
 	}
 	if thorough {
 		fr.atoms = append(fr.atoms,
-			as("append-many", "s = append(s, b, x)", eff{"E", x}),
+			as("append/many", "s = append(s, b, x)", eff{"E", x}),
 			as("reset", "s = []int{a}\n\tm = map[int]int{5: b}"),
 			as("elem-opassign", "s[0] += a\n\tm[5] -= b", eff{"E", B("+", E, a)}, eff{"E", B("-", E, b)}),
 			as("nil-slice", "{\n\t\tvar t []int\n\t\tt = append(t, a)\n\t\ts = t\n\t}"),
@@ -802,6 +868,9 @@ func exprFns(thorough bool, emit func(Fn)) {
 	// type from the context; inside another shift's count that context is
 	// unsigned and Go rejects a negative constant there. Such counts are skipped.
 	constShift := func(e *ie) bool {
+		if _, isConst := e.konst(); isConst {
+			return false // a constant shift is a constant: no typing problem
+		}
 		return (e.op == "<<" || e.op == ">>") && e.l.op == "k"
 	}
 	mk := func(op string, l, r *ie) *ie {
@@ -809,11 +878,14 @@ func exprFns(thorough bool, emit func(Fn)) {
 			if constShift(r) {
 				return nil
 			}
-			return &ie{op: op, l: l, r: &ie{op: "bound", v: "(" + r.String() + " & 3)", k: 0, l: K(3)}}
+			return B(op, l, B("&", r, K(3)))
 		}
 		if op == "/" || op == "%" {
 			// a constant zero divisor is a compile-time error in Go
 			if x, ok := r.eval(env); ok && x.lo.Sign() == 0 && x.hi.Sign() == 0 {
+				return nil
+			}
+			if k, ok := r.konst(); ok && k.Sign() == 0 {
 				return nil
 			}
 		}
